@@ -259,16 +259,21 @@ def run(ctx):
     brk = lambda: gen_paths(ctx, "UConnBuild_MC_brk", 2, 900)[0]
     # "inp" configuration: same-length edits in place of extension objects already in the list (+ SetClientRandom, SetSNI)
     inp = lambda: gen_paths(ctx, "UConnBuild_MC_inp", 2, 900)[0]
+    # "two" configuration: a second connection built from the same spec value / from a spec sharing its slices acts
+    # (build, in-place cipher-suite edit) between the build and the handshake of the connection under test
+    two = lambda: gen_paths(ctx, "UConnBuild_MC_two", 2, 900)[0]
     sni = lambda: gen_paths(ctx, "UConnBuild_MC_sni" if ctx.quick else "UConnBuild_MC_sni_full", 4, 1500)[0]
     if ctx.quick:
-        jobs = [mc_asis, lambda: gen_paths(ctx, "UConnBuild_MC", 9, 1500)[0], lambda: gen_paths(ctx, "UConnBuild_MC_nosess", 2, 600)[0], sni, brk, inp]
+        jobs = [mc_asis, lambda: gen_paths(ctx, "UConnBuild_MC", 9, 1500)[0], lambda: gen_paths(ctx, "UConnBuild_MC_nosess", 2, 600)[0], sni, brk, inp, two]
     else:
-        jobs = [mc_asis, lambda: gen_paths(ctx, "UConnBuild_MC_deep", 10, 3000)[0], lambda: gen_paths(ctx, "UConnBuild_MC_alt", 3, 1500)[0], sni, brk, inp]
-    with cf.ThreadPoolExecutor(max_workers=6) as ex:
-        _, paths, deep_paths, sni_paths, brk_paths, inp_paths = [f.result() for f in [ex.submit(j) for j in jobs]]
+        jobs = [mc_asis, lambda: gen_paths(ctx, "UConnBuild_MC_deep", 10, 3000)[0], lambda: gen_paths(ctx, "UConnBuild_MC_alt", 3, 1500)[0], sni, brk, inp, two]
+    with cf.ThreadPoolExecutor(max_workers=7) as ex:
+        _, paths, deep_paths, sni_paths, brk_paths, inp_paths, two_paths = [f.result() for f in [ex.submit(j) for j in jobs]]
     if ctx.quick:
         inp_paths = [p for p in inp_paths if p["server"] == "plain" or nmut(p) <= 1]
     brk_paths = brk_paths + inp_paths
+    # the second connection needs a caller-applied spec: only the hand-written custom spec
+    two_scns = [dict(p, id="Custom") for p in two_paths]
     reps["pskstrict"], by["pskstrict"] = reps["psk"], by["psk"]
     if ctx.quick:
         sni_paths = [p for p in sni_paths if p["mode"] != "both" and
@@ -295,6 +300,9 @@ def run(ctx):
                 for i in by[p["cls"]]:
                     if i not in reps[p["cls"]]:
                         add(p, i)
+    for t in two_scns:
+        t["sc"] = len(scns)
+        scns.append(t)
     by_sc = scns
 
     # ---- replay + validation, chunk by chunk (harness process -> TLC process), several chunks side by side
@@ -355,7 +363,7 @@ def run(ctx):
             ctx.findings.append(dict(ctx.findings[-1]))
 
     # ---- honesty: vacuity and canary (after the findings: a broken tree must not end as a machinery error)
-    need = MUTATORS + CLAIMS + ["Build", "BuildNoSess", "ApplyPreset", "rebuilt", "ch1", "ch2", "hrr", "hrr_cookie", "done", "done_hrr", "seeded", "psk", "sni_literal", "refused", "unbuildable", "build_failed", "inplace_found"]
+    need = MUTATORS + CLAIMS + ["Build", "BuildNoSess", "ApplyPreset", "rebuilt", "ch1", "ch2", "hrr", "hrr_cookie", "done", "done_hrr", "seeded", "psk", "sni_literal", "refused", "unbuildable", "build_failed", "inplace_found", "BBuild", "BPoke"]
     missing = [k for k in need if totals.get(k, 0) == 0]
     if missing and not ctx.findings:
         raise vlib.Machinery("vacuous: never exercised / never judged: %r (statistics %r)" % (missing, totals))
@@ -388,6 +396,7 @@ def run(ctx):
                    "that WireIsRaw and EditsVisible were evaluated on recorded bytes (paths are distinct by construction; the rest failed before sending)"
                    % (3 if ctx.quick else 4),
            "paths_from_model": len(paths) + len(deep_paths) + len(sni_paths) + len(brk_paths),
+           "second_connection_steps": {k: totals.get(k, 0) for k in ("BBuild", "BPoke")},
            "in_place_edits_claimed": totals.get("inplace_found", 0),
            "unbuildable_hellos": {k: totals.get(k, 0) for k in ("Break", "refused", "unbuildable", "build_failed", "build_err_unexplained")},
            "sni_claims_of_a_literal_or_empty_name_judged": totals.get("sni_literal", 0), "ids": sorted({s["id"] for s in scns}), "n_ids": len({s["id"] for s in scns}),
